@@ -661,10 +661,26 @@ impl<E: Effect> Executor<E> {
 
         self.processes.insert(id, process);
 
-        // Inject heap data and populate locals with captures
+        // Inject the heap data once, for the captures and the argument together: every call to
+        // `inject_heap_data` allocates the whole of `heap_data`, so injecting value by value
+        // would leave a floating (never reclaimed) copy of each binary per extra call.
         let captures_count = captures.len();
-        for value in captures {
-            let injected = self.inject_heap_data(value, &heap_data)?;
+        let mut bundle = captures;
+        bundle.push(argument);
+        let Value::Tuple(_, injected) =
+            self.inject_heap_data(Value::tuple(crate::types::NIL, bundle), &heap_data)?
+        else {
+            return Err(Error::InvalidArgument(
+                "Spawn bundle did not inject to a tuple".to_string(),
+            ));
+        };
+        let mut injected: Vec<Value> = injected.iter().cloned().collect();
+        let injected_arg = injected
+            .pop()
+            .ok_or(Error::InvalidArgument("Spawn bundle lost its argument".to_string()))?;
+
+        // Populate locals with captures
+        for injected in injected {
             // Injected into rooted storage (the new frame's locals).
             self.retain(&injected);
             let process = self
@@ -674,7 +690,6 @@ impl<E: Effect> Executor<E> {
         }
 
         // Push argument onto stack
-        let injected_arg = self.inject_heap_data(argument, &heap_data)?;
         self.retain(&injected_arg);
         let process = self
             .get_process_mut(id)
